@@ -50,7 +50,17 @@ fn exec(files: &[String]) {
         let (f, s) = (&pair[0], &pair[1]);
         let v: serde_json::Value = serde_json::from_str(&s).unwrap_or_else(|e| die(&format!("parse {}: {}", f, e)));
         let l = load_replay(&reg, &v).unwrap_or_else(|e| die(&e));
-        let fams: Vec<&str> = l.cfg.variants.keys().map(|&i| reg.families[i].name).collect();
+        // anchors for the families in play and for every family an Anchor operation of the list names
+        // (the exporting process had them all; a skipped operation would change the digest)
+        let mut fams: Vec<&str> = l.cfg.variants.keys().map(|&i| reg.families[i].name).collect();
+        for op in &l.ops {
+            if let sim::world::Op::Anchor { ty, .. } = op {
+                let f = reg.types[*ty].family;
+                if !fams.contains(&f) {
+                    fams.push(f);
+                }
+            }
+        }
         let anchors = Anchors::compute_for(&reg, Some(&fams));
         println!("@file {}", f);
         // same loop as engine::execute, with a marker before every operation so that an
@@ -60,9 +70,16 @@ fn exec(files: &[String]) {
         let mut viol = None;
         for (i, op) in l.ops.iter().enumerate() {
             println!("@op {} {}", i, op.kind());
-            if let Err(v) = w.apply(op) {
-                viol = Some(v);
-                break;
+            match w.apply(op) {
+                Ok(so) => {
+                    let mut d = Digest::default();
+                    d.bytes(&so.out);
+                    println!("@out {} applied={} {:016x}", i, so.applied, d.finish());
+                }
+                Err(v) => {
+                    viol = Some(v);
+                    break;
+                }
             }
         }
         println!("@op end drop_all");
